@@ -114,6 +114,22 @@ def st_arg_for(draw, kind, nvars, raws_types, cfg):
     raise ValueError(kind)
 
 
+def param_kinds(node):
+    """parameter kinds (real / pos / prob) when the node is vmap/repeat applied directly to a distribution"""
+    if node["k"] in ("vmap", "repeat") and node["g"]["k"] == "dist":
+        return gfi.DISTS[node["g"]["name"]][0]
+    return None
+
+
+def st_value(kind):
+    """a JSON value valid for a distribution parameter kind"""
+    if kind == "pos":
+        return st.integers(50, 200).map(lambda i: i / 100.0)
+    if kind == "prob":
+        return st.integers(10, 90).map(lambda i: i / 100.0)
+    return st_float()
+
+
 def st_vec(nvars, n):
     return st.lists(st_expr(nvars, 1), min_size=n, max_size=n).map(lambda es: ["vec", es])
 
@@ -124,7 +140,14 @@ def st_call_args(draw, node, nvars, raws_types, cfg):
     sg = gfi.sig(node)
     k = node["k"]
     out = []
+    pk = param_kinds(node)
     for pos, kind in enumerate(sg):
+        if pk is not None:
+            if kind == "v":
+                out.append(["vec", [draw(st_param(pk[pos], nvars)) for _ in range(node["n"])]])
+            else:
+                out.append(draw(st_param(pk[pos], nvars)))
+            continue
         if kind == "v":
             out.append(draw(st_vec(nvars, node["n"])))
         elif kind == "lg":
@@ -235,7 +258,13 @@ def st_node(draw, kind, depth, cfg):
     if kind == "static":
         return draw(st_static(draw(st.integers(0, 2)), depth, cfg))
     if kind in ("vmap", "repeat"):
-        g = draw(st_wrapped_scalar_fn(depth, cfg))
+        pool = [n_ for n_ in (cfg.get("dists") or ["normal", "laplace", "exponential", "flip"]) if n_ in ("normal", "laplace", "exponential", "flip")]
+        if cfg.get("discrete_only", False):
+            pool = [n_ for n_ in pool if n_ == "flip"]
+        if pool and draw(st.integers(0, 2)) == 0:
+            g = {"k": "dist", "name": draw(st.sampled_from(pool))}  # the combinator applied directly to a distribution
+        else:
+            g = draw(st_wrapped_scalar_fn(depth, cfg))
         nmin = cfg.get("nmin", 0)
         n = draw(st.integers(nmin, cfg.get("nmax", 3)))
         if kind == "repeat":
@@ -258,13 +287,13 @@ def st_node(draw, kind, depth, cfg):
         return {"k": kind, "g": kern, "n": draw(st.integers(1, cfg.get("nmax", 4)))}
     if kind == "switch":
         nb = draw(st.integers(2, 3))
-        return {"k": "switch", "bs": _disjoin([draw(st_wrapped_scalar_fn(depth, cfg)) for _ in range(nb)])}
+        return {"k": "switch", "bs": _disjoin([draw(st_wrapped_scalar_fn(depth, cfg)) for _ in range(nb)], draw(st.booleans()))}
     if kind == "or_else":
-        a, b = _disjoin([draw(st_wrapped_scalar_fn(depth, cfg)), draw(st_wrapped_scalar_fn(depth, cfg))])
+        a, b = _disjoin([draw(st_wrapped_scalar_fn(depth, cfg)), draw(st_wrapped_scalar_fn(depth, cfg))], draw(st.booleans()))
         return {"k": "or_else", "a": a, "b": b}
     if kind == "mix":
         nb = draw(st.integers(2, 3))
-        return {"k": "mix", "bs": _disjoin([draw(st_wrapped_scalar_fn(depth, cfg)) for _ in range(nb)])}
+        return {"k": "mix", "bs": _disjoin([draw(st_wrapped_scalar_fn(depth, cfg)) for _ in range(nb)], draw(st.booleans()))}
     if kind == "mask":
         return {"k": "mask", "g": draw(st_wrapped_scalar_fn(depth, cfg))}
     if kind == "map":
@@ -295,10 +324,35 @@ def st_node(draw, kind, depth, cfg):
     raise ValueError(kind)
 
 
-def _disjoin(branches):
+def _share_prefix(branches):
+    """all branches trace only distributions: give them tuple addresses below ONE shared first component
+    ("sp", <letter><branch>) so that the branches hold different content below the same address component"""
+    if not all(all(st_["callee"]["k"] == "dist" for st_ in b["stmts"]) for b in branches):
+        return None
+    out = []
+    for bi, b in enumerate(branches):
+        b = dict(b)
+        stmts = []
+        for si, st_ in enumerate(b["stmts"]):
+            st_ = dict(st_)
+            rt = gfi.DISTS[st_["callee"]["name"]][1]
+            # the first statement of every branch shares the full address when it is float-valued
+            leaf = "x" if (si == 0 and rt == "f") else f"{'pqr'[si % 3]}{bi}" + ("" if rt == "f" else f"_{rt}")
+            st_["addr"] = ["sp", leaf]
+            stmts.append(st_)
+        b["stmts"] = stmts
+        out.append(b)
+    return out
+
+
+def _disjoin(branches, share=False):
     """Branches of a switch may share an address only when both trace a distribution there: the same
     address holding a leaf in one branch and a sub-map (or an indexed map) in another is a malformed
     program outside the statements (lookups through such a choice map are not defined)."""
+    if share:
+        shared = _share_prefix(branches)
+        if shared is not None:
+            return shared
     out = []
     for bi, b in enumerate(branches):
         b = dict(b)
@@ -350,8 +404,11 @@ def st_args(draw, node, cfg=None):
     cfg = cfg or {}
     out = []
     k = node["k"]
+    pk = param_kinds(node)
     for pos, kind in enumerate(gfi.sig(node)):
-        if kind == "f":
+        if pk is not None:
+            out.append([draw(st_value(pk[pos])) for _ in range(node["n"])] if kind == "v" else draw(st_value(pk[pos])))
+        elif kind == "f":
             out.append(draw(st_float()))
         elif kind == "v":
             out.append([draw(st_float()) for _ in range(node["n"])])
